@@ -25,6 +25,7 @@ class FuncInfo:
     src_hash: str
     lineno: int
     module: str
+    enclosing: Optional[str] = None     # key of the enclosing function for a nested def (its parameters are free variables here)
 
 
 @dataclass
@@ -98,6 +99,16 @@ class Repo:
                         fi.key += ".deleter"
                         qual += ".deleter"
                     self.funcs[fi.key] = fi
+                    # functions defined directly inside this one (decorator wrappers): indexed as outer.inner, verified with the
+                    # outer function's parameters as additional symbolic inputs
+                    for sub in node.body:
+                        if isinstance(sub, (ast.FunctionDef, ast.AsyncFunctionDef)):
+                            seg2 = ast.get_source_segment(src, sub) or ""
+                            fi2 = FuncInfo(key=f"{rel}::{qual}.{sub.name}", file=rel, qual=f"{qual}.{sub.name}", node=sub, cls=None,
+                                           decorators=[ast.unparse(d) for d in sub.decorator_list],
+                                           src_hash=hashlib.sha256(seg2.encode()).hexdigest()[:16], lineno=sub.lineno, module=rel,
+                                           enclosing=fi.key)
+                            self.funcs.setdefault(fi2.key, fi2)
                     if cls is not None:
                         mname = node.name
                         if fi.key.endswith(".setter"):
